@@ -137,6 +137,10 @@ def install_externals(reg):
             r = z3.Function("len_of", Val, I)(v)      # an opaque container: an unknown non-negative length
             p.facts.append(r >= 0)
             return [(p, r)]
+        if z3.is_expr(v) and v.sort() == Bytes:
+            n = z3.Function("bytes_len", Bytes, I)(v)          # number of bytes: some non-negative integer, a function of the bytes
+            p.facts.append(n >= 0)
+            return [(p, n)]
         raise OutOfSubset("len of %r" % (v,))
     E["builtins.len"] = b_len
 
@@ -267,6 +271,12 @@ def install_externals(reg):
 
     def b_getattr(ex, p, pos, kw, node):
         obj, name = pos[0], z3.simplify(pos[1])
+        if z3.is_expr(obj) and obj.sort() == Val and z3.is_string_value(name):
+            # an attribute of an opaque value (a threading.local, a namespace, ...): some value, a function of the object --
+            # or the default; nothing else is known about it
+            if len(pos) > 2:
+                return [(p, z3.Function("getattr_or:" + name.as_string(), Val, Val, Val)(obj, to_val(pos[2])))]
+            return [(p, z3.Function("attr:" + name.as_string(), Val, Val)(obj))]
         if not (isinstance(obj, PyObj) and z3.is_string_value(name)):
             raise OutOfSubset("getattr with non-constant name / non-object")
         attr = name.as_string()
@@ -373,6 +383,12 @@ def install_externals(reg):
         ex.reg.trusted.add("logging: assumed contract A-log (emitting never raises into the caller and has no effect the program reads)")
         return [(p, uf("logging.getLogger", *pos))]
     E["logging.getLogger"] = log_get
+
+    def t_cast(ex, p, pos, kw, node):          # typing.cast(T, v) is v
+        if len(pos) != 2:
+            raise OutOfSubset("typing.cast with keywords")
+        return [(p, pos[1])]
+    E["typing.cast"] = t_cast
 
     def log_emit(ex, p, pos, kw, node):
         ex.reg.trusted.add("logging: assumed contract A-log (emitting never raises into the caller and has no effect the program reads)")
